@@ -13,7 +13,7 @@ func init() { register("C16", checkC16) }
 
 func checkC16(c *Ctx) {
 	r := c.R
-	r.Explanation = "Decides structural necessary conditions of C16 on the three stream wrappers of package streams, on the SSA of every run. Each exported entry point (Read, Close, WriteTo) is analysed on an INLINED VIEW: the control-flow graph of the method with every statically resolved same-package callee (helper methods, functions, closures) spliced in at its call site — including function values whose target is known (a closure or method value passed as a callback such as withLock(func(){…}), a local assigned once, a func-typed field assigned once in the package, bound-method wrappers) — and deferred calls replayed at the exits, branches on values that are constant in their context pruned, so a step counts wherever it is written; facts are branch conditions on paths (dominance, per-predecessor splitting of joins, short-circuit values, per-return splitting of helper results), and the types/fields are found by ROLE (the type LimitReadCloser returns; its interface field with Read+Close, its integer budget field, its bool flag; the []io.Reader field of MultiReaderCloser; the reader / writer interface fields of TeeReadCloser), not by unexported names, also when the fields are grouped into nested structs or a nil test is replaced by a flag; a closing loop over a local literal slice ([]any{r, w}) is understood. " +
+	r.Explanation = "Decides structural necessary conditions of C16 on the three stream wrappers of package streams, on the SSA of every run. Each exported entry point (Read, Close, WriteTo) is analysed on an INLINED VIEW: the control-flow graph of the method with every statically resolved same-package callee (helper methods, functions, closures) spliced in at its call site — including function values whose target is known (a closure or method value passed as a callback such as withLock(func(){…}), a local assigned once, a func-typed field assigned once in the package, bound-method wrappers) — a call through a package interface with a single implementation and the function given to sync.Once.Do — and deferred calls replayed at the exits, counting loops over small local literals (tables of values or of steps) unrolled, branches on values that are constant in their context pruned, so a step counts wherever it is written; facts are branch conditions on paths (dominance, per-predecessor splitting of joins, short-circuit values, per-return splitting of helper results), and the types/fields are found by ROLE (the type LimitReadCloser returns; its interface field with Read+Close, its integer budget field, its bool flag; the []io.Reader field of MultiReaderCloser; the reader / writer interface fields of TeeReadCloser), not by unexported names, also when the fields are grouped into nested structs or a nil test is replaced by a flag; a closing loop over a local literal slice ([]any{r, w}) is understood; the list may hold small structs wrapping the readers; the closed flag may be a bool, an atomic.Bool (Load/Store/Swap(true)/CompareAndSwap(false,true)) or be replaced by a sync.Once around the close; clear(list) and slices.Delete(list,0,1) are read as the list updates they stand for; counting loops are recognised from their induction variable (while, range, rotated/range-over-int, backwards). " +
 		"LimitReadCloser's Read: (V1) on every path from the source read to a return the budget N was decreased by the source's count (or the count is known <= 0), and within the limit the source's count and error are passed through unchanged; " +
 		"(V2-pre) before reading, ErrStreamTooLarge is returned only under N<0 (or source==nil) and io.EOF only under the closed flag; (V2-cap) the buffer handed to the source is capped at N+1; (V2-hide) on the over-limit side the look-ahead byte is hidden (count-1); (V2-err) on the over-limit side the returned error is ErrStreamTooLarge or a source error proven != io.EOF and != nil — never the source's io.EOF; " +
 		"(V2-close) every over-limit return has closed the source; (V4) the source's Close() is only reached with the flag known false, the flag is set on that path, and Close() closes the source unless already closed. " +
@@ -156,9 +156,18 @@ func c16Limit(c *Ctx) {
 	}
 	nBool := 0
 	isBool := func(t types.Type) bool {
+		if n, ok := types.Unalias(t).(*types.Named); ok && n.Obj().Pkg() != nil && n.Obj().Pkg().Path() == "sync/atomic" && n.Obj().Name() == "Bool" {
+			return true // a flag kept in an atomic.Bool
+		}
 		b, ok := t.Underlying().(*types.Basic)
 		return ok && b.Kind() == types.Bool
 	}
+	hasOnce := false
+	c16EachField(named, func(name string, t types.Type) {
+		if n, ok := types.Unalias(t).(*types.Named); ok && n.Obj().Pkg() != nil && n.Obj().Pkg().Path() == "sync" && n.Obj().Name() == "Once" {
+			hasOnce = true
+		}
+	})
 	c16EachField(named, func(name string, t types.Type) {
 		if isBool(t) {
 			nBool++
@@ -169,6 +178,9 @@ func c16Limit(c *Ctx) {
 		for name := range setInClose {
 			fClosed = c16FieldByTypeName(named, "closed flag", name, isBool)
 		}
+	} else if nBool == 0 && hasOnce {
+		// closing at most once is delegated to a sync.Once: no flag to track
+		fClosed = FieldID{Type: "<none>", Field: "<none>"}
 	} else {
 		fClosed = c16FieldByType(named, "closed flag", "closed", isBool)
 	}
@@ -280,13 +292,59 @@ func c16Limit(c *Ctx) {
 					return s &^ bSetTrue
 				}
 				if closeOn(n) {
+					if n.InOnce() {
+						s |= bSetTrue // sync.Once is the flag
+					}
 					return (s | bSrcClosed | bCalled) &^ bKnownOpen
+				}
+				// flag kept in an atomic.Bool
+				if v, isVal := n.In.(ssa.Value); isVal {
+					switch op, call := gg.AtomicBoolOp(c16V{v, n.Ctx}, fClosed); op {
+					case "Store":
+						if k, ok := gg.Res(c16V{call.Call.Args[1], n.Ctx}).V.(*ssa.Const); ok && k.Value != nil && k.Value.String() == "true" {
+							return s | bSetTrue
+						}
+						return s &^ bSetTrue
+					case "Swap", "CompareAndSwap":
+						if len(refs(call)) == 0 {
+							return s | bSetTrue // result ignored: just sets the flag
+						}
+					}
 				}
 				return s
 			},
 			Edge: func(conds []c16C, s uint32) (uint32, bool) {
 				for _, c := range conds {
-					if cv, truth := gg.BoolCond(c); gg.IsFieldLoad(cv, fClosed) {
+					cv, truth := gg.BoolCond(c)
+					if cv.V != nil {
+						switch op, call := gg.AtomicBoolOp(cv, fClosed); op {
+						case "Swap", "CompareAndSwap":
+							// Swap(true) returns the old value; CompareAndSwap(false, true) whether it was false
+							wasClosed := truth
+							if op == "CompareAndSwap" {
+								wasClosed = !truth
+							}
+							okForm := false
+							if op == "Swap" && len(call.Call.Args) == 2 {
+								k, isK := gg.Res(c16V{call.Call.Args[1], cv.Ctx}).V.(*ssa.Const)
+								okForm = isK && k.Value != nil && k.Value.String() == "true"
+							}
+							if op == "CompareAndSwap" && len(call.Call.Args) == 3 {
+								k1, ok1 := gg.Res(c16V{call.Call.Args[1], cv.Ctx}).V.(*ssa.Const)
+								k2, ok2 := gg.Res(c16V{call.Call.Args[2], cv.Ctx}).V.(*ssa.Const)
+								okForm = ok1 && ok2 && k1.Value != nil && k2.Value != nil && k1.Value.String() == "false" && k2.Value.String() == "true"
+							}
+							if okForm {
+								if wasClosed {
+									s = (s | bSrcClosed | bSetTrue) &^ bKnownOpen
+								} else {
+									s |= bKnownOpen | bSetTrue
+								}
+								continue
+							}
+						}
+					}
+					if op, _ := gg.AtomicBoolOp(cv, fClosed); cv.V != nil && (gg.IsFieldLoad(cv, fClosed) || op == "Load") {
 						if truth {
 							if s&bSetTrue == 0 {
 								s |= bSrcClosed
@@ -658,8 +716,10 @@ func c16Limit(c *Ctx) {
 					}
 				} else {
 					for _, c := range lf.Conds {
-						if cv, truth := g.BoolCond(c); truth && g.IsFieldLoad(cv, fClosed) {
-							ok = true
+						if cv, truth := g.BoolCond(c); truth && cv.V != nil {
+							if op, _ := g.AtomicBoolOp(cv, fClosed); g.IsFieldLoad(cv, fClosed) || op == "Load" {
+								ok = true
+							}
 						}
 					}
 					if !ok {
@@ -694,7 +754,7 @@ func c16Limit(c *Ctx) {
 				return
 			}
 			nCalls++
-			if fl.Any(n, func(s uint32) bool { return s&bKnownOpen == 0 }) {
+			if !n.InOnce() && fl.Any(n, func(s uint32) bool { return s&bKnownOpen == 0 }) {
 				unguarded = gg.Pos(n)
 			}
 		})
